@@ -130,7 +130,7 @@ class JobCtx:
             c = mk_cex(m)
             if c is not None:
                 c.setdefault('clause', clause); c.setdefault('job', self.name); self.cex.append(c)
-        else: self.cex.append(dict(clause=clause, job=self.name, signature='?', what='no replay scenario'))
+        else: self.cex.append(dict(clause=clause, job=self.name, signature=clause, what='obligation over a crate-private structure (no native observable): decided on the MIR, re-decided on the other MIR flavour before it is reported'))
         return False
     def panic(self, pc, p, clause='no-panic', mk_cex=None, allowed=None):
         """a path ended in a Rust panic under a satisfiable pc: violation unless `allowed(msg)`"""
@@ -163,6 +163,7 @@ def _run_job(spec):
     try:
         mod = importlib.import_module(modname)
         r = getattr(mod, func)(name=name, **kwargs)
+        for c in r.get('cex', []): c.setdefault('job_func', func); c.setdefault('job_kwargs', kwargs)
         return r
     except BaseException as e:
         if os.getpid() != root:
@@ -176,6 +177,17 @@ def _run_job(spec):
             return dict(name=name, inconclusive=['%s: %s' % (name, str(e)[:600])], wall_s=round(time.time() - t0, 2), cex=[], paths=0, obligations=0, discharged=0)
         return dict(name=name, inconclusive=['%s: internal error %s: %s\n%s' % (name, type(e).__name__, str(e)[:400], traceback.format_exc()[-1500:])],
                     wall_s=round(time.time() - t0, 2), cex=[], paths=0, obligations=0, discharged=0)
+def confirm_on_other_flavour(modname, func, kwargs, clause, name='confirm'):
+    """for obligations about crate-private structures that the native build cannot show: decide the same obligation again on
+    the MIR of the other arithmetic flavour (overflow checks off = what release builds compile) in this fresh process; the
+    violation is reported only if that independent dump violates the same clause"""
+    mod = importlib.import_module(modname)
+    kw = dict(kwargs); kw['mode'] = 'off'
+    for c, m in getattr(mod, 'MIR', []): build.mir(c, 'off')
+    r = getattr(mod, func)(name=name, **kw)
+    hit = [c for c in r.get('cex', []) if c.get('clause') == clause]
+    return bool(hit), 'the overflow-checks-off MIR (release arithmetic) %s the same clause (%d paths, %d obligations)' % ('violates' if hit else 'does NOT violate', r.get('paths', 0), r.get('obligations', 0))
+
 def load_known():
     p = os.path.join(VERIF, 'known_findings.json')
     return json.load(open(p)) if os.path.exists(p) else []
